@@ -276,6 +276,13 @@ def large_magnitudes():
             d = {"description": desc, "shapes": [None], "kwargs": {k: str(v) for k, v in kw.items()}, "entry": "solve_shapes"}
             got = tuple(tuple(int(x) for x in s) for s in o[1]) if o[0] == "ok" else o[1]
             out.append(("ok", d, None) if got == exp else ("inexact", d, f"solve_shapes({desc!r}, None, {kw}) = {got}, exact value {exp}"))
+        # literal numbers take another path (values of stage1/stage2 nodes, common-subexpression axes)
+        for desc, exp in [(f"({a} {b})", ((a * b,),)), (f"({a} {b} {c})", ((a * b * c,),)), (f"({a} + {b})", ((a + b,),)), (f"x ({a} {b}), ({a} {b})", ((7, a * b), (a * b,)))]:
+            args = (None,) if "," not in desc else (None, None)
+            o = harness.outcome(lambda: einx.solve_shapes(desc, *args, **({"x": 7} if "x" in desc else {})), 15)
+            d = {"description": desc, "shapes": [None] * len(args), "kwargs": {}, "entry": "solve_shapes"}
+            got = tuple(tuple(int(x) for x in s) for s in o[1]) if o[0] == "ok" else o[1]
+            out.append(("ok", d, None) if got == exp else ("inexact", d, f"solve_shapes({desc!r}, {args}) = {got}, exact value {exp}"))
         o = harness.outcome(lambda: einx.solve_axes("a b", None, None, a=a, b=b) if False else einx.solve_axes("(a b)", np.zeros((6,)), a=2), 15)
         big = rng.choice([2 ** 31, 2 ** 33 + 5, 2 ** 40])
         o = harness.outcome(lambda: einx.solve_axes("a", None, a=big), 15)
@@ -363,6 +370,54 @@ def rank_value_independence():
     return out
 
 
+def many_repetitions():
+    """ellipses with 10+ repetitions: per-repetition lengths are reported in repetition order (positions 10, 11, ... must not be ordered as text)"""
+    import einx
+    out = []
+    for shape in [(2, 3, 1, 2, 1, 3, 2, 1, 1, 2, 3, 2), (1, 2, 3, 1, 2, 3, 1, 2, 3, 1, 2), (3, 1, 2, 1, 1, 2, 1, 3, 1, 2, 1, 1, 2)]:
+        x = np.broadcast_to(np.zeros(()), shape)
+        for desc, kw, want in [("a...", {}, {"a": shape}), ("a... b", {}, {"a": shape[:-1], "b": shape[-1]}), ("(a b)...", {"b": 1}, {"a": shape, "b": (1,) * len(shape)})]:
+            o = harness.outcome(lambda: einx.solve_axes(desc, x, **kw), 30)
+            d = {"description": desc, "shapes": [list(shape)], "kwargs": kw, "entry": "solve_axes"}
+            if o[0] == "timeout":
+                out.append(("timeout", d, None))
+                continue
+            good = o[0] == "ok" and all(np.array_equal(np.asarray(o[1].get(k)), np.asarray(v)) for k, v in want.items())
+            out.append(("ok", d, None) if good else ("wrong-value", d, f"solve_axes({desc!r}, shape {shape}, {kw}) = {o[1]}, expected {want}"))
+            o = harness.outcome(lambda: einx.solve_shapes(desc, x, **kw), 30)
+            d = dict(d, entry="solve_shapes")
+            if o[0] != "timeout":
+                out.append(("ok", d, None) if o[0] == "ok" and tuple(int(v) for v in o[1][0]) == tuple(shape) else ("wrong-value", d, f"solve_shapes({desc!r}, shape {shape}) = {o[1]}"))
+    return out
+
+
+POSITIVITY = [("(a + b) c", [(1, 4)], {}), ("((a + b) (c + d))", [(5,)], {}), ("(a + b + c) d", [(2, 3)], {}), ("a (b + 1)", [(3, 1)], {}), ("(a + b), b", [(3,), (3,)], {}), ("((a + b) c)", [(3,)], {"c": 3})]
+
+
+def positivity_cases(chk):
+    """every axis length is a POSITIVE integer: a concatenation of k axes is at least k. Systems that have a solution over the non-negative integers only must be rejected.
+    solve_axes (no common-subexpression elimination) rejects them; solve_shapes / matches replace '(a + b)' by one axis first and then accept: finding F-cse-positivity"""
+    import einx
+    out = []
+    for desc, shapes, kw in POSITIVITY:
+        tensors = [np.broadcast_to(np.zeros(()), s) for s in shapes]
+        d = {"description": desc, "shapes": [list(s) for s in shapes], "kwargs": kw}
+        o_axes = harness.outcome(lambda: einx.solve_axes(desc, *tensors, **kw), 15)
+        for entry in ("solve_axes", "solve_shapes", "matches"):
+            o = harness.outcome(lambda: getattr(einx, entry)(desc, *tensors, **kw), 15)
+            accepted = o[0] == "ok" and not (entry == "matches" and o[1] is False)
+            if o[0] == "exc" and o[1] not in ("einx.errors.AxisSizeError", "einx.errors.RankError"):
+                out.append(("internal", dict(d, entry=entry), f"{entry} raised {o[1]}"))
+            elif accepted and entry != "solve_axes" and o_axes[0] == "exc" and o_axes[1] == "einx.errors.AxisSizeError":
+                chk.known_finding("F-cse-positivity", "einx.solve_shapes / matches accept systems that have no solution in POSITIVE integers when a concatenation is replaced by one axis first, e.g. solve_shapes('(a + b) c', shape (1, 4)) = ((1, 4),)")
+                out.append(("ok", dict(d, entry=entry), None))
+            elif accepted:
+                out.append(("accepts-none", dict(d, entry=entry), f"{entry} accepts {desc!r} against {shapes} {kw} although no assignment of positive integers satisfies it"))
+            else:
+                out.append(("ok", dict(d, entry=entry), None))
+    return out
+
+
 def rule_exact():
     """C02.S.exact: no 32-bit casts of sizes in the solving code; lengths of flattened / concatenated axes are computed with Python ints"""
     sites, failing = [], []
@@ -387,6 +442,16 @@ def rule_exact():
                 allowed = r.endswith("stage2/solve.py") and isinstance(fn, ast.FunctionDef) and fn.name == "_input_expr"  # dtype of an EMPTY array only
                 if not allowed:
                     failing.append(site + " (narrow numeric type in size arithmetic)")
+    # fixed-width numpy reductions over axis lengths (np.prod / np.sum / cumulative forms wrap at 2**63 without any error)
+    NARROW = ("prod", "sum", "cumprod", "cumsum", "multiply", "add", "dot", "product")
+    for f in files:
+        t = ast.parse(open(f).read())
+        r = os.path.relpath(f, REPO)
+        for n in ast.walk(t):
+            if isinstance(n, ast.Call) and isinstance(n.func, ast.Attribute) and n.func.attr in NARROW and isinstance(n.func.value, ast.Name) and n.func.value.id in ("np", "numpy", "_np"):
+                site = f"{r}:{n.lineno}:{ast.unparse(n)[:60]}"
+                sites.append(site)
+                failing.append(site + " (fixed-width numpy arithmetic on axis lengths; use Python integers)")
     t, p = frame.parse("einx/_src/namedtensor/stage3/tree.py")
     for cname in ("List", "ConcatenatedAxis"):
         c = frame.find_class(t, cname)
@@ -462,7 +527,7 @@ def run(tier, seed):
     n = 24 if tier == "quick" else 1500
     res = [x for r in harness.pmap(_work, [(seed, i) for i in range(n)]) for x in r]
     res += large_magnitudes()
-    res += constraint_rank_sequences() + rank_value_independence()
+    res += constraint_rank_sequences() + rank_value_independence() + positivity_cases(chk) + many_repetitions()
     cnt = {}
     for r in res:
         cnt[r[0]] = cnt.get(r[0], 0) + 1
